@@ -142,6 +142,7 @@ struct Exec {
     std::vector<bool> fresh;                              // per slot: successful update, no catalog change since
     std::vector<int> epoch;                               // per slot: number of successful updates
     std::map<std::pair<int, int>, int> hepoch;            // (slot, handle) -> epoch of creation
+    std::map<std::pair<int, int>, int> node_cls;          // (slot, node) -> class it stands for
 };
 static Exec* g_exec = nullptr;
 
@@ -273,7 +274,19 @@ static void run_ops(const Script& sc, const std::vector<std::string>& binding) {
         const bool observing = op.k == "T" || op.k == "CT" || op.k == "R" || op.k == "C" || op.k == "X" || op.k == "SO" || op.k == "SL" || op.k == "EN" ||
                                op.k == "L" || op.k == "RT" || op.k == "A" || op.k == "VN" || op.k == "VD" ||
                                op.k == "VG" || op.k == "VC";
-        if (observing && !ex.fresh[op.p]) {
+        // an indirect handle for the exact static type of a registered class needs no look-up: it may be created at any time
+        bool early_handle = false;
+        if (op.k == "VN" && !ex.fresh[op.p] && r->indirect()) {
+            auto nc = ex.node_cls.find({op.p, op.a[1]});
+            const bool exact = nc != ex.node_cls.end() && nc->second == op.a[2] &&
+                               (op.s == "final" || op.s == "sh_final" || op.s == "mk" || op.s == "ref" || op.s == "sh_lv" || op.s == "sh_rv");
+            bool registered = false;
+            for (auto& cr : ex.crecs[op.p]) {
+                registered = registered || cr.c == op.a[2];
+            }
+            early_handle = exact && registered;
+        }
+        if (observing && !ex.fresh[op.p] && !early_handle) {
             // legal use only: nothing is observed between a catalog change (or a failed update) and the next update
             emit("{\"e\":\"skip\"," + P + "}");
             continue;
@@ -434,6 +447,9 @@ static void run_ops(const Script& sc, const std::vector<std::string>& binding) {
                  (r->checked() ? "true" : "false") + "}");
         } else if (op.k == "N") {
             bool ok = r->map_node(op.a[0], op.a[1]);
+            if (ok) {
+                ex.node_cls[{op.p, op.a[0]}] = op.a[1];
+            }
             emit("{\"e\":\"node\"," + P + ",\"k\":" + std::to_string(op.a[0]) + ",\"c\":" + std::to_string(op.a[1]) +
                  ",\"ok\":" + (ok ? "true" : "false") + "}");
         } else if (op.k == "VN" || op.k == "VD") {
